@@ -71,14 +71,36 @@ class Env:
         self.keep = list(keep)
 
 
-def _atoms(tag, seed):
+POPS = ["full", "bare", "void"]
+"""initial condition of the mutable containers AT COPY TIME:
+full : every attribute dictionary populated (flat values, nested dicts - one of them empty -, a nested
+       list, an ndarray), bonds present
+bare : atoms and bonds present, every attribute dictionary (atom, bond, molecule) EMPTY
+void : no atoms, no bonds, empty attribute dictionary: every list / array of the object is empty"""
+
+
+def _atoms(tag, seed, pop="full"):
     v = seed + 1
-    return [
-        Atom("C", isotope=13, label=f"c0{tag}", atype=AtomType.sp3, stereo=AtomStereo.R, geom=AtomGeom.R4_Tetrahedral, formal_charge=0, formal_spin=0, attrib={"k": v, "n": {"x": [1, v]}}),
+    at = [
+        Atom("C", isotope=13, label=f"c0{tag}", atype=AtomType.sp3, stereo=AtomStereo.R, geom=AtomGeom.R4_Tetrahedral, formal_charge=0, formal_spin=0, attrib={"k": v, "n": {"x": [1, v]}, "arr": np.array([1.5, float(v)])}),
         Atom("O", label=f"o1{tag}", atype=AtomType.Regular, geom=AtomGeom.R2_Bent, formal_charge=-1, attrib={"k": "o", "n": {"x": v}}),
-        Atom("H", isotope=2, label=f"h2{tag}", attrib={"k": 2.5, "n": {}}),
+        Atom("H", isotope=2, label=f"h2{tag}", attrib={"k": 2.5, "n": {}, "l": []}),
         Atom("H", label=f"h3{tag}", formal_spin=1, attrib={"n": {"x": None}}),
     ]
+    if pop != "full":
+        for a in at:
+            a.attrib = {}
+    return at
+
+
+def _mol_attrib(seed, pop):
+    return {"mk": seed + 1, "mn": {"y": [seed, "s"]}, "me": {}, "arr": np.array([0.5, 2.0])} if pop == "full" else {}
+
+
+def _bond_attrib(j, seed, pop):
+    if pop != "full":
+        return {}
+    return {"bk": seed, "bn": {"z": [seed]}} if j == 0 else ({"bn": {"z": 0}, "be": {}} if j == 1 else {})
 
 
 def _coords(seed, conf=0, tag=""):
@@ -92,15 +114,17 @@ def _charges(conf=0, tag=""):
     return [0.125 + off, -0.375 + off, 0.0625 + off, 0.25 + off]
 
 
-def build_base(clsname, seed, tag=""):
+def build_base(clsname, seed, tag="", pop="full"):
     cls = BASE[clsname]
+    if pop == "void":
+        return cls(name=f"src{tag}", charge=-1, mult=2)
     kw = {}
     if issubclass(cls, CartesianGeometry):
         kw["coords"] = _coords(seed, 0, tag)
     if cls is Molecule:
         kw["atomic_charges"] = _charges(0, tag)
-    m = cls(_atoms(tag, seed), name=f"src{tag}", charge=-1, mult=2, **kw)
-    m.attrib.update({"mk": seed + 1, "mn": {"y": [seed, "s"]}})
+    m = cls(_atoms(tag, seed, pop), name=f"src{tag}", charge=-1, mult=2, **kw)
+    m.attrib.update(_mol_attrib(seed, pop))
     if issubclass(cls, Connectivity):
         for j, (a, b) in enumerate(BONDS):
             bd = m.connect(a, b)
@@ -109,35 +133,34 @@ def build_base(clsname, seed, tag=""):
                 bd.btype = BondType.Double
                 bd.stereo = BondStereo.E
                 bd.f_order = 2.0
-                bd.attrib.update({"bk": seed, "bn": {"z": [seed]}})
-            elif j == 1:
-                bd.attrib.update({"bn": {"z": 0}})
+            bd.attrib.update(_bond_attrib(j, seed, pop))
     return m
 
 
-def build_ensemble(seed, tag=""):
+def build_ensemble(seed, tag="", pop="full"):
     mols = []
     for k in range(2):
-        m = build_base("Molecule", seed, tag)
-        m.coords = _coords(seed, k, tag)
-        m.atomic_charges = _charges(k, tag)
+        m = build_base("Molecule", seed, tag, pop)
+        if pop != "void":
+            m.coords = _coords(seed, k, tag)
+            m.atomic_charges = _charges(k, tag)
         mols.append(m)
     e = ConformerEnsemble(mols)
     # the ensemble is itself a product of a route that is under test; give it its own, fresh
     # attribute dictionaries so that nothing is shared with the scaffolding molecules
-    for a, fresh in zip(e.atoms, _atoms(tag, seed)):
+    for a, fresh in zip(e.atoms, _atoms(tag, seed, pop)):
         a.attrib = fresh.attrib
-    e.attrib = {"mk": seed + 1, "mn": {"y": [seed, "s"]}}
+    e.attrib = _mol_attrib(seed, pop)
     for j, b in enumerate(e.bonds):
-        b.attrib = {"bk": seed, "bn": {"z": [seed]}} if j == 0 else ({"bn": {"z": 0}} if j == 1 else {})
+        b.attrib = _bond_attrib(j, seed, pop)
     e.weights = [0.75, 0.25]
     return e
 
 
-def build_source(name, seed, tag=""):
+def build_source(name, seed, tag="", pop="full"):
     if name in BASE:
-        return Env(build_base(name, seed, tag))
-    e = build_ensemble(seed, tag)
+        return Env(build_base(name, seed, tag, pop))
+    e = build_ensemble(seed, tag, pop)
     if name == "ConformerEnsemble":
         return Env(e)
     return Env(e[1], owner=e)
@@ -237,6 +260,97 @@ def snap(obj, owner=None):
         s["weights"] = _get(lambda: enc(np.asarray(obj.weights)))
         s["n_conformers"] = _get(lambda: obj.n_conformers)
     return s
+
+
+def _sub_containers(v, path, out, depth=0):
+    """v and every dict / list / ndarray reachable inside it"""
+    if depth > 8:
+        return
+    if isinstance(v, dict):
+        out.append((path, v))
+        for k, x in v.items():
+            _sub_containers(x, path + (repr(k),), out, depth + 1)
+    elif isinstance(v, list):
+        out.append((path, v))
+        for i, x in enumerate(v):
+            _sub_containers(x, path + (i,), out, depth + 1)
+    elif isinstance(v, tuple):
+        for i, x in enumerate(v):
+            _sub_containers(x, path + (i,), out, depth + 1)
+    elif isinstance(v, np.ndarray):
+        out.append((path, v))
+
+
+def reach(obj, owner=None):
+    """every mutable object reachable from `obj` through the public accessors: the attribute
+    dictionaries of the object, its atoms and its bonds (recursively: nested dicts, lists, arrays),
+    the atom / bond lists and records themselves, the coordinate / charge / weight arrays.
+    -> list of (path, object)"""
+    out = []
+    for o in (obj,) if owner is None else (obj, owner):
+        try:
+            _sub_containers(o.attrib, ("attrib",), out)
+        except Exception:
+            pass
+        try:
+            atoms = o.atoms
+            out.append((("atoms",), atoms))
+            for i, a in enumerate(atoms):
+                out.append((("atoms", i), a))
+                _sub_containers(a.attrib, ("atoms", i, "attrib"), out)
+        except Exception:
+            pass
+        if isinstance(o, Connectivity):
+            try:
+                bonds = o.bonds
+                out.append((("bonds",), bonds))
+                for j, b in enumerate(bonds):
+                    out.append((("bonds", j), b))
+                    _sub_containers(b.attrib, ("bonds", j, "attrib"), out)
+            except Exception:
+                pass
+        for fld in ("coords", "atomic_charges", "weights"):
+            try:
+                v = getattr(o, fld)
+            except Exception:
+                continue
+            if isinstance(v, np.ndarray):
+                out.append(((fld,), v))
+    return out
+
+
+def _is_empty(c):
+    if isinstance(c, np.ndarray):
+        return c.size == 0
+    if isinstance(c, (dict, list)):
+        return len(c) == 0
+    return False
+
+
+def aliases(reach_src, reach_cp):
+    """containers reachable from the copy that ARE (or, for arrays, share memory with) a container
+    reachable from the source.  -> list of (path on the copy, path on the source, empty?)"""
+    by_id = {}
+    arrays = []
+    for path, c in reach_src:
+        if isinstance(c, np.ndarray):
+            arrays.append((path, c))
+        else:
+            by_id.setdefault(id(c), (path, c))
+    out = []
+    seen = set()
+    for path, c in reach_cp:
+        if isinstance(c, np.ndarray):
+            for p2, c2 in arrays:
+                if c is c2 or (c.size and c2.size and np.shares_memory(c, c2)):
+                    if (path, p2) not in seen:
+                        seen.add((path, p2))
+                        out.append((path, p2, _is_empty(c)))
+        elif id(c) in by_id and by_id[id(c)][1] is c:
+            if (path, by_id[id(c)][0]) not in seen:
+                seen.add((path, by_id[id(c)][0]))
+                out.append((path, by_id[id(c)][0], _is_empty(c)))
+    return out
 
 
 def diff(a, b, path=()):
@@ -453,39 +567,85 @@ def _m_q_inplace(o, s):
     q[(0,) * q.ndim] = 9.0 + s
 
 
-def _with(items, key):
-    return [x for x in items if isinstance(x.attrib.get(key), dict)]
-
-
-def _pick(items, s):
-    return items[s % len(items)]
-
-
 def _set(o, name, v):
     setattr(o, name, v)
 
 
-# name -> (applicable(obj), function(obj, seed)); atom / bond index rotates with the seed
+def _nested(d):
+    """every dict / list / ndarray strictly inside the dictionary d"""
+    out = []
+    _sub_containers(d, (), out)
+    return [c for p, c in out if p != ()]
+
+
+def _write_flat(dicts, v):
+    """insert a key (the FIRST one, when the dictionary was empty at copy time) into every dictionary"""
+    n = 0
+    for d in dicts:
+        d["new"] = v
+        n += 1
+    if not n:
+        raise _NA()
+
+
+def _write_nested(dicts, v):
+    """write into every container nested inside the dictionaries"""
+    n = 0
+    for d in dicts:
+        for c in _nested(d):
+            if isinstance(c, dict):
+                c["nn"] = v
+            elif isinstance(c, list):
+                c.append(v)
+            else:
+                c[(0,) * c.ndim] = 41.0 + v
+            n += 1
+    if not n:
+        raise _NA()
+
+
+def _hint(o, s):
+    """the annotation add_implicit_hydrogens consumes (the CDXML reader writes it), on every heavy atom"""
+    n = 0
+    for a in o.atoms:
+        if a.element.symbol != "H":
+            a.attrib["__implicit_hydrogens"] = 1
+            n += 1
+    if not n:
+        raise _NA()
+
+
+class _NA(Exception):
+    pass
+
+
+def _nz(o):
+    return o.n_atoms > 0
+
+
+# name -> (applicable(obj), function(obj, seed)).  Attribute-dictionary edits go to EVERY atom / bond
+# (not a sample), so every container is exercised; the index of field edits rotates with the seed.
 MUTATIONS = {
-    "atom.label": (lambda o: True, lambda o, s: _set(o.atoms[s % o.n_atoms], "label", "mut")),
-    "atom.element": (lambda o: True, lambda o, s: _set(o.atoms[s % o.n_atoms], "element", "S")),
-    "atom.formal_charge": (lambda o: True, lambda o, s: _set(o.atoms[s % o.n_atoms], "formal_charge", 3)),
-    "atom.attrib[k]": (lambda o: True, lambda o, s: o.atoms[s % o.n_atoms].attrib.__setitem__("new", 7 + s)),
-    "atom.attrib[k][j]": (lambda o: len(_with(o.atoms, "n")) > 0, lambda o, s: _pick(_with(o.atoms, "n"), s).attrib["n"].__setitem__("x", 99 + s)),
+    "atom.label": (_nz, lambda o, s: _set(o.atoms[s % o.n_atoms], "label", "mut")),
+    "atom.element": (_nz, lambda o, s: _set(o.atoms[s % o.n_atoms], "element", "S")),
+    "atom.formal_charge": (_nz, lambda o, s: _set(o.atoms[s % o.n_atoms], "formal_charge", 3)),
+    "atom.attrib[k]": (_nz, lambda o, s: _write_flat([a.attrib for a in o.atoms], 7 + s)),
+    "atom.attrib[k][j]": (_nz, lambda o, s: _write_nested([a.attrib for a in o.atoms], 99 + s)),
+    "atom.attrib[hint]": (_nz, _hint),
     "bond.label": (_has_bonds, lambda o, s: _set(o.bonds[s % o.n_bonds], "label", "mutb")),
     "bond.btype": (_has_bonds, lambda o, s: _set(o.bonds[s % o.n_bonds], "btype", BondType.Triple)),
-    "bond.attrib[k]": (_has_bonds, lambda o, s: o.bonds[s % o.n_bonds].attrib.__setitem__("new", 5 + s)),
-    "bond.attrib[k][j]": (lambda o: _has_bonds(o) and len(_with(o.bonds, "bn")) > 0, lambda o, s: _pick(_with(o.bonds, "bn"), s).attrib["bn"].__setitem__("z", 77 + s)),
-    "mol.attrib[k]": (lambda o: True, lambda o, s: o.attrib.__setitem__("new", 3 + s)),
-    "mol.attrib[k][j]": (lambda o: "mn" in o.attrib, lambda o, s: o.attrib["mn"].__setitem__("y", "changed")),
-    "coords[i]+=": (_geom, _m_coords_inplace),
-    "coords=": (_geom, _m_coords_assign),
-    "atomic_charges[i]=": (_q, _m_q_inplace),
+    "bond.attrib[k]": (_has_bonds, lambda o, s: _write_flat([b.attrib for b in o.bonds], 5 + s)),
+    "bond.attrib[k][j]": (_has_bonds, lambda o, s: _write_nested([b.attrib for b in o.bonds], 77 + s)),
+    "mol.attrib[k]": (lambda o: True, lambda o, s: _write_flat([o.attrib], 3 + s)),
+    "mol.attrib[k][j]": (lambda o: True, lambda o, s: _write_nested([o.attrib], 13 + s)),
+    "coords[i]+=": (lambda o: _geom(o) and _nz(o), _m_coords_inplace),
+    "coords=": (lambda o: _geom(o) and _nz(o), _m_coords_assign),
+    "atomic_charges[i]=": (lambda o: _q(o) and _nz(o), _m_q_inplace),
     "name=": (lambda o: True, lambda o, s: _set(o, "name", "renamed")),
     "charge=": (lambda o: True, lambda o, s: _set(o, "charge", 5)),
     "add_atom": (lambda o: True, _m_add_atom),
-    "del_atom": (lambda o: True, lambda o, s: o.del_atom(s % o.n_atoms)),
-    "connect": (lambda o: isinstance(o, Connectivity), lambda o, s: o.connect(1, 2)),
+    "del_atom": (_nz, lambda o, s: o.del_atom(s % o.n_atoms)),
+    "connect": (lambda o: isinstance(o, Connectivity) and o.n_atoms > 2, lambda o, s: o.connect(1, 2)),
     "del_bond": (_has_bonds, lambda o, s: o.del_bond(o.bonds[s % o.n_bonds])),
     "add_implicit_hydrogens": (lambda o: isinstance(o, Structure), lambda o, s: o.add_implicit_hydrogens()),
     "scale": (_geom, lambda o, s: o.scale(2.0)),
@@ -493,6 +653,9 @@ MUTATIONS = {
     "weights[i]=": (lambda o: isinstance(o, ConformerEnsemble), lambda o, s: o.weights.__setitem__(0, 9.0)),
 }
 MUT_NAMES = list(MUTATIONS)
+# the library-routine direction the property names: an annotation written on one side, the routine
+# that consumes annotations run on the OTHER side
+CROSS = [("atom.attrib[hint]", "add_implicit_hydrogens"), ("atom.attrib[k]", "add_implicit_hydrogens"), ("mol.attrib[k]", "add_implicit_hydrogens")]
 
 
 def apply_mut(name, obj, seed):
@@ -506,6 +669,8 @@ def apply_mut(name, obj, seed):
         return "n/a"
     try:
         fn(obj, seed)
+    except _NA:
+        return "n/a"
     except Exception as e:
         return "raised:" + type(e).__name__
     return None
@@ -525,6 +690,9 @@ class Side:
     def labels(self):
         return [self.label] + ([self.label + ".ensemble"] if self.owner is not None else [])
 
+    def reach(self):
+        return reach(self.obj, self.owner)
+
     def snaps(self):
         out = {self.label: snap(self.obj, self.owner)}
         if self.owner is not None:
@@ -537,13 +705,14 @@ def make_copy(ctx, cell):
     seed = ctx.seed
     src = cell["src"]
     route = cell["route"]
-    env_a = build_source(src, seed, "")
+    pop = cell.get("pop", "full")
+    env_a = build_source(src, seed, "", pop)
     sources = [Side("source", env_a.obj, env_a.owner)]
     keep = [env_a]
     ur = unary_routes()
     nops = 1
     if route[0] in BINARY:
-        env_b = build_source(src, seed, "b")
+        env_b = build_source(src, seed, "b", pop)
         keep.append(env_b)
         sources.append(Side("source_b", env_b.obj, env_b.owner))
         kind = "concatenate" if route[0] == "or" else route[0]  # a | b is the operator spelling of concatenate
@@ -622,63 +791,110 @@ def run_cell(ctx, cell, report=True):
                 case,
                 repro=repro_of(cell, seed),
             )
-    # ---- mutate one side ----------------------------------------------------------------------
-    side = result if direction == "copy" else sources[0]
-    others = [sd for sd in sources + copies if sd is not side]
+    # ---- (b0) identity: nothing mutable reachable from the result may BE (or share memory with)
+    #      something reachable from what it was made from - whether or not it is empty right now
+    pairs = [(sd, kind) for sd in sources]
+    if len(copies) > 1:
+        pairs = [(sources[0], kind), (copies[-2], last_kind)]
+    r_cp = result.reach()
+    flagged = set()
+    for sd, klabel in pairs:
+        for pc, ps, empty in aliases(sd.reach(), r_cp):
+            npth = norm_path(pc)
+            sfx = "[empty-at-copy-time]" if empty else ""
+            if (klabel, npth, sfx) in flagged:
+                continue
+            flagged.add((klabel, npth, sfx))
+            bad = True
+            ctx.violation(
+                sig(klabel, f"shared-state:{npth}{sfx}"),
+                f"{'/'.join(route)} of a {src} [{cell.get('pop', 'full')}]: {'the (empty) ' if empty else ''}object at copy.{'.'.join(map(str, pc))} IS the object at "
+                f"{sd.label}.{'.'.join(map(str, ps))} (same Python object / shared memory): the first in-place write on either side shows on the other",
+                case,
+                repro=repro_of(cell, seed),
+            )
+    flagged_paths = {(k, p) for k, p, _ in flagged}
+    # ---- mutate: one edit after the other, each on the side its direction names -------------------
+    dirs = cell.get("dirs") or [direction] * len(muts)
     outcomes = []
-    for mname in muts:
+    changed_self = False
+    s_prev = s_before
+    for mname, d in zip(muts, dirs):
+        side = result if d == "copy" else sources[0]
         r = apply_mut(mname, side.obj, seed)
         ctx.count(transitions=1)
         outcomes.append(r)
-        if r is not None and r.startswith("raised:") and not bad and direction == "copy" and route[0] not in BINARY and type(side.obj) is type(sources[0].obj) and len(muts) == 1:
+        if r is not None and r.startswith("raised:") and not bad and d == "copy" and route[0] not in BINARY and type(side.obj) is type(sources[0].obj) and len(muts) == 1:
             # (c) the same edit on a fresh source of the same class
-            ref = build_source(src, seed, "")
+            ref = build_source(src, seed, "", cell.get("pop", "full"))
             r2 = apply_mut(mname, ref.obj, seed)
             if r2 is None:
+                bad = True
                 ctx.violation(
                     sig(kind, f"edit-fails-on-copy-only:{mname}"),
                     f"{mname} works on a {src} but raises {r[7:]} on its {'/'.join(route)} copy",
                     case,
                     repro=repro_of(cell, seed),
                 )
-    # ---- (b) independence ---------------------------------------------------------------------
-    s_after = {}
-    for sd in sources + copies:
-        s_after.update(sd.snaps())
-    touched = set(side.labels())  # a conformer and its ensemble are one object for this purpose
-    changed_self = any(s_before[k] != s_after[k] for k in touched)
-    # pairs that are this cell's business: (source(s), result) and, in a chain, (last intermediate,
-    # result); source <-> intermediate is the single-route cell of the first route
-    if direction == "copy":
-        watch = [(k, kind) for sd in sources for k in sd.labels()]
-        if len(copies) > 1:
-            watch += [(k, last_kind) for k in copies[-2].labels()]
-    else:
-        watch = [(k, kind) for k in result.labels()]
-        if route[0] in BINARY:
-            watch += [(k, kind) for k in sources[1].labels()]
-    for k, klabel in watch:
-        if k in touched:
-            continue
-        d = diff(s_before[k], s_after[k])
-        for p in sorted(set(norm_path(q) for q in d)):
+        # ---- (b) independence: whatever was not edited in this step is unchanged by it ----------
+        s_now = {}
+        for sd in sources + copies:
+            s_now.update(sd.snaps())
+        touched = set(side.labels())  # a conformer and its ensemble are one object for this purpose
+        changed_self = changed_self or any(s_prev[k] != s_now[k] for k in touched)
+        # pairs that are this cell's business: (source(s), result) and, in a chain, (last intermediate,
+        # result); source <-> intermediate is the single-route cell of the first route
+        if d == "copy":
+            watch = [(k, kind) for sd in sources for k in sd.labels()]
+            if len(copies) > 1:
+                watch += [(k, last_kind) for k in copies[-2].labels()]
+        else:
+            watch = [(k, kind) for k in result.labels()]
+            if route[0] in BINARY:
+                watch += [(k, kind) for k in sources[1].labels()]
+        step_bad = False
+        for k, klabel in watch:
+            if k in touched:
+                continue
+            dd = diff(s_prev[k], s_now[k])
+            for pth in sorted(set(norm_path(q) for q in dd)):
+                step_bad = True
+                if (klabel, pth) in flagged_paths:
+                    continue  # the identity check named this very container already
+                first = next(q for q in dd if norm_path(q) == pth)
+                sfx = "[empty-at-copy-time]" if _empty_container_at(s_before[k], first) else ""
+                ctx.violation(
+                    sig(klabel, f"shared-state:{pth}{sfx}"),
+                    f"{'/'.join(route)} of a {src} [{cell.get('pop', 'full')}]: {mname} on the {'copy' if d == 'copy' else 'source'} (history {'+'.join(muts)} on {'/'.join(dirs)}) changed {k}.{pth} "
+                    f"({_at(s_prev[k], first)!r} -> {_at(s_now[k], first)!r})",
+                    case,
+                    repro=repro_of(cell, seed),
+                )
+        s_prev = s_now
+        if step_bad:
             bad = True
-            first = next(q for q in d if norm_path(q) == p)
-            ctx.violation(
-                sig(klabel, f"shared-state:{p}"),
-                f"{'/'.join(route)} of a {src}: editing the {'copy' if direction == 'copy' else 'source'} ({'+'.join(muts)}) changed {k}.{p} "
-                f"({_at(s_before[k], first)!r} -> {_at(s_after[k], first)!r})",
-                case,
-                repro=repro_of(cell, seed),
-            )
-    key = (src, "/".join(route), "+".join(muts), direction)
+            break  # nothing is explored beyond a violating step
+    key = (src, cell.get("pop", "full"), "/".join(route), "+".join(muts), "/".join(dirs))
     if bad and len(route) == 1 and len(muts) == 1:
         ctx.add_note(f"dirty|{src}|{route[0]}")
     if changed_self:
         ctx.nontrivial(key)
-    out = (tuple(outcomes), changed_self, bad, digest(s_after.get("copy")), digest(s_after.get("source")))
+    out = (tuple(outcomes), changed_self, bad, digest(s_prev.get("copy")), digest(s_prev.get("source")))
     ctx.outcome(digest(out))
     return out
+
+
+def _empty_container_at(snapshot, path):
+    """was the attribute dictionary this path leads into empty when the copy was made?"""
+    cur = snapshot
+    try:
+        for x in path:
+            cur = cur[x]
+            if x == "attrib":
+                return cur == ("dict", ())
+    except Exception:
+        return False
+    return False
 
 
 def _at(s, path):
@@ -706,25 +922,36 @@ def repro_of(cell, seed):
 
 def _repro_of(cell, seed):
     src, route, muts, direction = cell["src"], cell["route"], cell["muts"], cell["dir"]
+    pop = cell.get("pop", "full")
+    dirs = cell.get("dirs") or [direction] * len(muts)
     L = ["import pickle, copy, numpy as np", "from molli.chem import *", ""]
-    L += [
-        "def build(tag=''):",
-        "    atoms = [Atom('C', label='c0'+tag, attrib={'k': 1, 'n': {'x': 1}}), Atom('O', label='o1'+tag, attrib={'k': 2, 'n': {'x': 2}}),",
-        "             Atom('H', label='h2'+tag, attrib={'n': {}}), Atom('H', label='h3'+tag, attrib={'n': {}})]",
-        f"    m = Molecule(atoms, name='src'+tag, charge=-1, mult=2, coords={_coords(seed)!r}, atomic_charges={_charges()!r})",
-        "    m.attrib.update({'mk': 1, 'mn': {'y': 1}})",
-        "    for a, b in [(0, 1), (0, 2), (1, 3)]:",
-        "        m.connect(a, b).attrib.update({'bk': 1, 'bn': {'z': 1}})",
-        "    return m",
-        "",
-    ]
+    if pop == "void":
+        L += ["def build(tag=''):", "    return Molecule(name='src'+tag, charge=-1, mult=2)   # no atoms, no bonds, empty attrib", ""]
+    else:
+        full = pop == "full"
+        L += [
+            "def build(tag=''):",
+            "    atoms = [Atom('C', label='c0'+tag), Atom('O', label='o1'+tag), Atom('H', label='h2'+tag), Atom('H', label='h3'+tag)]",
+            f"    m = Molecule(atoms, name='src'+tag, charge=-1, mult=2, coords={_coords(seed)!r}, atomic_charges={_charges()!r})",
+            "    for a, b in [(0, 1), (0, 2), (1, 3)]:",
+            "        m.connect(a, b)",
+        ]
+        if full:
+            L += [
+                "    for a in m.atoms: a.attrib.update({'k': 1, 'n': {'x': [1]}, 'e': {}})",
+                "    for b in m.bonds: b.attrib.update({'bk': 1, 'bn': {'z': [1]}, 'be': {}})",
+                "    m.attrib.update({'mk': 1, 'mn': {'y': [1]}, 'me': {}})",
+            ]
+        else:
+            L += ["    # every attribute dictionary (atoms, bonds, molecule) is EMPTY at copy time"]
+        L += ["    return m", ""]
     if src in BASE:
         L.append(f"src = {src}(build())" if src != "Molecule" else "src = build()")
         if src != "Molecule":
             L.append("# (the harness builds the source class directly; shown here through its copy constructor for brevity)")
         L.append(f"src_b = {src}(build('b'))" if src != "Molecule" else "src_b = build('b')")
     else:
-        L.append("ens = ConformerEnsemble([build(), build()]); ens.coords[1] += 4.0")
+        L.append("ens = ConformerEnsemble([build(), build()])")
         L.append("ens_b = ConformerEnsemble([build('b'), build('b')])")
         if src == "ConformerEnsemble":
             L.append("src, src_b = ens, ens_b")
@@ -733,7 +960,7 @@ def _repro_of(cell, seed):
     expr = {
         "pickle": "pickle.loads(pickle.dumps({x}))",
         "deepcopy": "copy.deepcopy({x})",
-        "concatenate": "type(src if not isinstance(src, Conformer) else Molecule()).concatenate(src, src_b)",
+        "concatenate": "(Molecule if isinstance(src, Molecule) else Structure).concatenate(src, src_b)",
         "or": "src | src_b",
         "join": "(Molecule if isinstance(src, Molecule) else Structure).join(src, src_b, 2, 3)",
         "ensemble-from-list": "ConformerEnsemble([src, src_b])",
@@ -746,20 +973,20 @@ def _repro_of(cell, seed):
             e = expr[rn].format(x=cur)
         L.append(f"cp = {e}")
         cur = "cp"
-    side = "cp" if direction == "copy" else "src"
-    other = "src" if direction == "copy" else "cp"
+    nest = "[c.__setitem__('nn', 9) if isinstance(c, dict) else c.append(9) for d in ({ds}) for c in d.values() if isinstance(c, (dict, list))]"
     code = {
         "atom.label": "{x}.atoms[0].label = 'mut'",
         "atom.element": "{x}.atoms[0].element = 'S'",
         "atom.formal_charge": "{x}.atoms[0].formal_charge = 3",
-        "atom.attrib[k]": "{x}.atoms[0].attrib['new'] = 7",
-        "atom.attrib[k][j]": "{x}.atoms[0].attrib['n']['x'] = 99",
+        "atom.attrib[k]": "for a in {x}.atoms: a.attrib['new'] = 7",
+        "atom.attrib[k][j]": nest.format(ds="a.attrib for a in {x}.atoms"),
+        "atom.attrib[hint]": "for a in {x}.atoms: a.attrib.update({{'__implicit_hydrogens': 1}} if a.element.symbol != 'H' else {{}})",
         "bond.label": "{x}.bonds[0].label = 'mutb'",
         "bond.btype": "{x}.bonds[0].btype = BondType.Triple",
-        "bond.attrib[k]": "{x}.bonds[0].attrib['new'] = 5",
-        "bond.attrib[k][j]": "{x}.bonds[0].attrib['bn']['z'] = 77",
+        "bond.attrib[k]": "for b in {x}.bonds: b.attrib['new'] = 5",
+        "bond.attrib[k][j]": nest.format(ds="b.attrib for b in {x}.bonds"),
         "mol.attrib[k]": "{x}.attrib['new'] = 3",
-        "mol.attrib[k][j]": "{x}.attrib['mn']['y'] = 'changed'",
+        "mol.attrib[k][j]": nest.format(ds="[{x}.attrib]"),
         "coords[i]+=": "{x}.coords[(0,) * ({x}.coords.ndim - 1)] += 1.0",
         "coords=": "{x}.coords = {x}.coords + 2.0",
         "atomic_charges[i]=": "{x}.atomic_charges[(0,) * {x}.atomic_charges.ndim] = 9.0",
@@ -775,68 +1002,95 @@ def _repro_of(cell, seed):
         "weights[i]=": "{x}.weights[0] = 9.0",
     }
     L.append("def show(o):")
-    L.append("    return dict(name=o.name, attrib=o.attrib, atoms=[(a.label, a.element, a.formal_charge, a.attrib) for a in o.atoms],")
-    L.append("                bonds=[(b.label, b.btype, b.attrib) for b in getattr(o, 'bonds', [])], coords=getattr(o, 'coords', None), q=getattr(o, 'atomic_charges', None))")
-    L.append(f"print('copy right after copying:', show(cp)); print('source:', show(src))")
-    L.append(f"before = repr(show({other}))")
-    for m in muts:
-        L.append(code[m].format(x=side))
-    L.append(f"print('untouched side changed:', before != repr(show({other})))")
-    L.append("print('parents on the copy:', [getattr(a, 'parent', 'n/a') is cp for a in cp.atoms])")
+    L.append("    return repr(dict(name=o.name, attrib=o.attrib, atoms=[(a.label, a.element, a.formal_charge, a.attrib) for a in o.atoms],")
+    L.append("                bonds=[(b.label, b.btype, b.attrib) for b in getattr(o, 'bonds', [])], coords=getattr(o, 'coords', None), q=getattr(o, 'atomic_charges', None)))")
+    L.append("print('same dict object on both sides:', [a.attrib is b.attrib for a, b in zip(cp.atoms, src.atoms)], cp.attrib is src.attrib)")
+    for m, d in zip(muts, dirs):
+        side = "cp" if d == "copy" else "src"
+        other = "src" if d == "copy" else "cp"
+        L.append(f"before = show({other})")
+        L.append(code[m].format(x=side) + f"        # {m} on the {d}")
+        L.append(f"print('{m} on the {d} changed the other side:', before != show({other}))")
     return "\n".join(L)
 
 
 # -------------------------------------------------------------------------------------------------
 # the matrix
 # -------------------------------------------------------------------------------------------------
-def cells(ctx):
-    seed = ctx.seed
+def _routes_for(seed):
     ur = unary_routes()
     routes_for = {}
-    probe_objs = {s: build_source(s, seed) for s in SOURCES}
     for s in SOURCES:
-        rs = [(rn,) for rn in ur if unary_applicable(rn, probe_objs[s].obj)]
+        probe = build_source(s, seed).obj
+        rs = [(rn,) for rn in ur if unary_applicable(rn, probe)]
         rs += [(bn,) for bn in BINARY if binary_applicable(bn, s)]
         routes_for[s] = rs
+    return routes_for
+
+
+def _pop_ok(pop, route):
+    return not (pop == "void" and route[0] == "join")  # a join needs attachment atoms
+
+
+def cells(ctx):
+    """first wave: source x population x route x (mutation x direction  +  cross histories)"""
+    seed = ctx.seed
+    routes_for = _routes_for(seed)
     muts = MUT_NAMES[seed % len(MUT_NAMES) :] + MUT_NAMES[: seed % len(MUT_NAMES)]
     out = []
     for s in SOURCES:
-        for r in routes_for[s]:
-            for m in muts:
-                for d in ("copy", "source"):
-                    out.append({"src": s, "route": list(r), "muts": [m], "dir": d})
+        for pop in POPS:
+            for r in routes_for[s]:
+                if not _pop_ok(pop, r):
+                    continue
+                for m in muts:
+                    for d in ("copy", "source"):
+                        out.append({"src": s, "pop": pop, "route": list(r), "muts": [m], "dir": d})
+                if pop == "void":
+                    continue
+                # an annotation written on one side, the library routine that reads annotations on the other
+                for m1, m2 in CROSS:
+                    for d1, d2 in (("copy", "source"), ("source", "copy")):
+                        out.append({"src": s, "pop": pop, "route": list(r), "muts": [m1, m2], "dir": d1, "dirs": [d1, d2]})
     return out, routes_for, muts
 
 
 def cells2(ctx, routes_for, muts, dirty):
-    """second wave (thorough): copies of copies and pairs of edits - only on top of (source, route)
-    combinations whose single cells were all clean (a route that already violates the property is
-    a damaged state: nothing is explored beyond it)"""
+    """second wave (thorough): copies of copies, and every ordered pair of edits both on one side and
+    on opposite sides - only on top of (source, route) combinations whose first-wave cells were all
+    clean (a route that already violates the property is a damaged state: nothing is explored
+    beyond it)"""
     seed = ctx.seed
     ur = unary_routes()
     out = []
-    if True:
-        # chains of two unary routes: the class of the first copy decides what applies next
-        for s in SOURCES:
-            for (r1,) in [r for r in routes_for[s] if r[0] not in BINARY and (s, r[0]) not in dirty]:
-                try:
-                    mid = ur[r1][1](build_source(s, seed).obj)
-                except Exception:
-                    continue  # reported by the single-route cell
-                for r2 in ur:
-                    if not unary_applicable(r2, mid):
-                        continue
+    # chains of two unary routes: the class of the first copy decides what applies next
+    for s in SOURCES:
+        for (r1,) in [r for r in routes_for[s] if r[0] not in BINARY and (s, r[0]) not in dirty]:
+            try:
+                mid = ur[r1][1](build_source(s, seed).obj)
+            except Exception:
+                continue  # reported by the single-route cell
+            for r2 in ur:
+                if not unary_applicable(r2, mid):
+                    continue
+                for pop in POPS:
                     for m in muts:
                         for d in ("copy", "source"):
-                            out.append({"src": s, "route": [r1, r2], "muts": [m], "dir": d})
-        # every ordered pair of mutations on every single route
-        for s in SOURCES:
-            for r in [r for r in routes_for[s] if (s, r[0]) not in dirty]:
+                            out.append({"src": s, "pop": pop, "route": [r1, r2], "muts": [m], "dir": d})
+    # every ordered pair of mutations on every single route
+    for s in SOURCES:
+        for r in [r for r in routes_for[s] if (s, r[0]) not in dirty]:
+            for pop in ("full", "bare"):
+                if not _pop_ok(pop, r):
+                    continue
                 for m1 in muts:
                     for m2 in muts:
-                        if m1 != m2:
-                            for d in ("copy", "source"):
-                                out.append({"src": s, "route": list(r), "muts": [m1, m2], "dir": d})
+                        if m1 == m2:
+                            continue
+                        for d1, d2 in (("copy", "copy"), ("source", "source"), ("copy", "source"), ("source", "copy")):
+                            if pop == "bare" and d1 == d2:
+                                continue  # same-side pairs differ from the single cells only through the first edit's effect
+                            out.append({"src": s, "pop": pop, "route": list(r), "muts": [m1, m2], "dir": d1, "dirs": [d1, d2]})
     return out
 
 
@@ -876,6 +1130,8 @@ def run(ctx):
     ctx.bound["sources"] = SOURCES
     ctx.bound["routes"] = {s: ["/".join(r) for r in rs] for s, rs in routes_for.items()}
     ctx.bound["mutations"] = MUT_NAMES
+    ctx.bound["populations_at_copy_time"] = POPS
+    ctx.bound["cross_histories"] = [list(c) for c in CROSS]
     nparts = 32 if ctx.thorough else 16
     parts = [p for p in (allc[i::nparts] for i in range(nparts)) if p]
     ctx.pmap(_work, parts)
@@ -902,5 +1158,7 @@ def run(ctx):
 
 def replay(ctx, case):
     ctx.seed = case.get("seed", ctx.seed)
-    cell = {"src": case["src"], "route": list(case["route"]), "muts": list(case["muts"]), "dir": case["dir"]}
+    cell = {"src": case["src"], "pop": case.get("pop", "full"), "route": list(case["route"]), "muts": list(case["muts"]), "dir": case["dir"]}
+    if case.get("dirs"):
+        cell["dirs"] = list(case["dirs"])
     run_cell(ctx, cell)
